@@ -718,8 +718,25 @@ def run(ctx: Any, prog: Program) -> None:
     ok = 'self.to_clear = (lump, *extra)' in U(init)
     ctx.shape('C10.B6', ok, bsp, init, 'to_clear must be exactly the lumps named in the view declaration (B1 is checked against that list)', text='to_clear = declaration')
 
+    # ---- B4 (game-lump directory fields): id, flags and version of a game lump are written as the object holds them --------------------------
+    # read() stores the 16-bit flags and version of each game-lump directory entry on the GameLump; save() packs the same attributes back.
+    # "Only bit 0 is defined" is no reason to rebuild the field from is_compressed: the other bits of a file that has them are lost by a
+    # plain read and save.
+    svg = ms['save']
+    gl_packs = [c for c in ast.walk(svg) if isinstance(c, ast.Call) and dotted(c.func) == 'struct.pack' and c.args and isinstance(c.args[0], ast.Constant) and isinstance(c.args[0].value, str)
+                and c.args[0].value.replace(' ', '') in ('<4sHH', '4sHH')]
+    ctx.shape('C10.B4', len(gl_packs) == 1 and len(gl_packs[0].args) == 4, bsp, svg, 'the pack of a game-lump directory entry (`<4s HH`: id, flags, version) was not found once in save()', func='BSP.save', text='game-lump directory fields')
+    for gp_ in gl_packs[:1]:
+        if len(gp_.args) != 4:
+            continue
+        for slot_, want_ in ((2, 'flags'), (3, 'version')):
+            a_ = gp_.args[slot_]
+            ctx.check('C10.B4', isinstance(a_, ast.Attribute) and a_.attr == want_ and isinstance(a_.value, ast.Name), bsp, a_, f'save() packs `{U(a_)[:50]}` as the {want_} of a game lump instead of the attribute read() '
+                      f'filled in (`<lump>.{want_}`): bits of the field that the expression does not reproduce are lost by a plain read and save', func='BSP.save', text=f'game-lump directory {want_} written as read')
+
 
 MUTANTS = [
+    {'id': 'game_lump_flags_rebuilt', 'file': 'bsp.py', 'find': "                            game_lump.flags,\n", 'replace': "                            1 if game_lump.is_compressed else 0,\n", 'expect': 'C10.B4', 'note': 'round 14'},
     {'id': 'ents_separator_guessed_when_unknown', 'file': 'bsp.py', 'find': "        return self.write_ent_data(vmf, self.out_comma_sep, _show_dep=False)", 'replace': "        sep = self.out_comma_sep\n        if sep is None:\n            sep = self.version < 21\n        return self.write_ent_data(vmf, sep, _show_dep=False)", 'expect': 'C10.B9', 'note': 'round 12'},
     {'id': 'empty_lump_offset_zero', 'file': 'bsp.py', 'find': "                    else:\n                        lump_data = lump.data\n                        lump_fourcc = 0\n", 'replace': "                    else:\n                        lump_data = lump.data\n                        lump_fourcc = 0\n                    lump_start = file.tell()\n                    if not lump_data:\n                        lump_start = 0\n", 'extra': [{'file': 'bsp.py', 'find': "                        defer.set_data(lump_name, file.tell(), len(lump_data), lump.version, lump_fourcc)", 'replace': "                        defer.set_data(lump_name, lump_start, len(lump_data), lump.version, lump_fourcc)"}], 'expect': 'C10.B4', 'note': 'round 11: offset 0 for empty lumps trips the L4D2 sniff'},
     {'id': 'face_lookup_closures_memoised_on_self', 'file': 'bsp.py', 'find': "        add_texinfo = find_or_insert(self.texinfo)\n        add_plane = find_or_insert(self.planes)\n", 'replace': "        if getattr(self, '_face_finders', None) is None:\n            self._face_finders = (find_or_insert(self.texinfo), find_or_insert(self.planes))\n        add_texinfo, add_plane = self._face_finders\n", 'expect': 'C10.B11'},
